@@ -18,43 +18,43 @@ theorem foldl_add_eq (xs : List α) (f : α → K) (acc : K) :
     simp only [List.foldl_cons]
     rw [ih (acc + f x), ih (0 + f x), zero_add, add_assoc]
 
-@[simp] theorem sumList_nil (f : α → K) : sumList ([] : List α) f = 0 := rfl
+@[simp] theorem sumL_nil (f : α → K) : sumList ([] : List α) f = 0 := rfl
 
-theorem sumList_cons (x : α) (xs : List α) (f : α → K) : sumList (x :: xs) f = f x + sumList xs f := by
+theorem sumL_cons (x : α) (xs : List α) (f : α → K) : sumList (x :: xs) f = f x + sumList xs f := by
   show (x :: xs).foldl (fun a x => a + f x) 0 = _
   rw [List.foldl_cons, foldl_add_eq, zero_add]
 
-theorem sumList_append (a b : List α) (f : α → K) : sumList (a ++ b) f = sumList a f + sumList b f := by
+theorem sumL_append (a b : List α) (f : α → K) : sumList (a ++ b) f = sumList a f + sumList b f := by
   induction a with
   | nil => simp
-  | cons x xs ih => rw [List.cons_append, sumList_cons, sumList_cons, ih, add_assoc]
+  | cons x xs ih => rw [List.cons_append, sumL_cons, sumL_cons, ih, add_assoc]
 
 theorem sumList_map (l : List α) (F : α → β) (e : β → K) : sumList (l.map F) e = sumList l (fun x => e (F x)) := by
   induction l with
   | nil => rfl
-  | cons x xs ih => rw [List.map_cons, sumList_cons, sumList_cons, ih]
+  | cons x xs ih => rw [List.map_cons, sumL_cons, sumL_cons, ih]
 
 theorem sumList_flatMap (l : List α) (F : α → List β) (e : β → K) :
     sumList (l.flatMap F) e = sumList l (fun x => sumList (F x) e) := by
   induction l with
   | nil => rfl
-  | cons x xs ih => rw [List.flatMap_cons, sumList_append, sumList_cons, ih]
+  | cons x xs ih => rw [List.flatMap_cons, sumL_append, sumL_cons, ih]
 
 theorem sumList_filterMap (l : List α) (F : α → Option β) (e : β → K) :
     sumList (l.filterMap F) e = sumList l (fun x => match F x with | some y => e y | none => 0) := by
   induction l with
   | nil => rfl
   | cons x xs ih =>
-    rw [sumList_cons, ← ih]
+    rw [sumL_cons, ← ih]
     cases h : F x with
     | none => rw [List.filterMap_cons_none h]; simp
-    | some y => rw [List.filterMap_cons_some h, sumList_cons]
+    | some y => rw [List.filterMap_cons_some h, sumL_cons]
 
 theorem sumList_all_zero (l : List α) (f : α → K) (h : ∀ x ∈ l, f x = 0) : sumList l f = 0 := by
   induction l with
   | nil => rfl
   | cons x xs ih =>
-    rw [sumList_cons, h x (List.mem_cons_self ..), ih (fun y hy => h y (List.mem_cons_of_mem _ hy)), add_zero]
+    rw [sumL_cons, h x (List.mem_cons_self ..), ih (fun y hy => h y (List.mem_cons_of_mem _ hy)), add_zero]
 
 end sums
 
@@ -64,12 +64,12 @@ variable [NonUnitalNonAssocSemiring K] {α : Type}
 theorem sumList_mul_left (l : List α) (a : K) (f : α → K) : sumList l (fun x => a * f x) = a * sumList l f := by
   induction l with
   | nil => simp
-  | cons x xs ih => rw [sumList_cons, sumList_cons, ih, mul_add]
+  | cons x xs ih => rw [sumL_cons, sumL_cons, ih, mul_add]
 
 theorem sumList_mul_right (l : List α) (a : K) (f : α → K) : sumList l (fun x => f x * a) = sumList l f * a := by
   induction l with
   | nil => simp
-  | cons x xs ih => rw [sumList_cons, sumList_cons, ih, add_mul]
+  | cons x xs ih => rw [sumL_cons, sumL_cons, ih, add_mul]
 
 end ring
 
